@@ -297,7 +297,13 @@ class SmtpRelayClient(RelayPoolClient):
             pass
         finally:
             if self.client:
-                self.client.io.close()
+                # Closing a TLS session waits for the peer's close
+                # notification: not for ever.
+                try:
+                    with Timeout(self.command_timeout):
+                        self.client.io.close()
+                except Timeout:
+                    self.client.io.socket.close()
 
     def _get_error_reply(self, exc):
         assert self.client is not None
